@@ -269,6 +269,15 @@ func c02Case(c *rig.Ctx) {
 			if !ok {
 				continue
 			}
+			// "a delete filter removes the matching items": every ninth update is a delete whose selector names
+			// only a part of the identifier or a non-identifier field of a stored item and may match several items
+			if r.Intn(9) == 0 {
+				if mu, mok := li.GenMultiDelete(r, ref); mok {
+					u = mu
+					matched := len(ref) - len(li.RefApply(ref, u))
+					c.Count(fmt.Sprintf("delete-sel-multi:items-matched=%d", min(matched, 3)), 1)
+				}
+			}
 			variant := r.Intn(4)
 			if c02MaybeShuffle(c, &u) {
 				c.Count("full-updates-with-unordered-identifiers", 1)
